@@ -162,7 +162,9 @@ func propC05(c *Check) {
 		c.RequireFact(h, "R3", "decode", lit("(MsgTx.DeserializeNoWitness("+tx+", bytes.NewReader("+txField+")) == nil)"), nil, "")
 		c.RequireFact(h, "R3", "decode-consumes-all", `^\(Reader\.Len\(bytes\.NewReader\(`+regexp.QuoteMeta(txField)+`\)\) (<=|==) 0\)$`, nil, "")
 		c.RequireFact(h, "R3", "output-count n or n+1", lit(EQ("len("+ids+")", "len("+tx+".TxOut)"))+"|"+lit(EQ("(1 + len("+ids+"))", "len("+tx+".TxOut)")), nil, "")
-		c.RequireFact(h, "R3", "fee-rate<=MaxTxPrice", patLE("("+feeField+" / len("+txField+"))", W+".MaxTxPrice"), tset, "record write")
+		// exact forms only: float division compared with the limit, or integer cross-multiplication (integer division would floor the rate)
+		c.RequireFact(h, "R3", "fee-rate<=MaxTxPrice", patLE("(float("+feeField+") / float(len("+txField+")))", "float("+W+".MaxTxPrice)")+"|"+
+			patLE(feeField, "("+W+".MaxTxPrice * len("+txField+"))")+"|"+patLE(feeField, "(len("+txField+") * "+W+".MaxTxPrice)"), tset, "record write")
 		c.RequireFact(h, "R3", "address-decodes", lit("(bitcoin/types.DecodeBtcAddress("+W+".Address, "+net+")#1 == nil)"), tset, "record write")
 		c.RequireFact(h, "R3", "script-equals-address", lit("bytes.Equal(bitcoin/types.DecodeBtcAddress("+W+".Address, "+net+")#0, "+tx+".TxOut["+i+"].PkScript)"), tset, "record write")
 		c.RequireFact(h, "R3", "value<=requested", patLE(tx+".TxOut["+i+"].Value", W+".RequestAmount"), tset, "record write")
@@ -286,6 +288,7 @@ func propC05(c *Check) {
 	c.RequireFact(fin, "R4", "header-hash", lit("bytes.Equal(BlockHashes.Get($2.BlockNumber)#0, crypto.DoubleSHA256Sum($2.BlockHeader))"), nil, "")
 	c.RequireFact(fin, "R4", "spv", lit("bitcoin/types.VerifyMerkelProof($2.Txid, $2.BlockHeader[36:68], $2.IntermediateProof, $2.TxIndex)"), nil, "")
 	c.RequireFact(fin, "R4", "processing-removed", lit("(Processing.Remove($2.Pid) == nil)"), nil, "")
+	c.positionBound("R4") // coinbase exclusion (TxIndex != 0) is sound only if the SPV check binds the position
 	fv := p.MustFn("x/bitcoin/types.MsgFinalizeWithdrawal.Validate")
 	c.RequireFact(fv, "R4", "header-80-bytes", lit("(80 == len($0.BlockHeader))"), nil, "")
 	c.RequireFact(fv, "R4", "txid-32-bytes", lit("(32 == len($0.Txid))"), nil, "")
